@@ -13,7 +13,7 @@ RULE = ("exhaustive box of (ns, nswin, overlap<nswin) triples sharded by nswin, 
         "a triple is non-trivial when it produces >= 2 windows; distinct = distinct triple "
         "(distinct_nontrivial counts them per shard and is summed over disjoint shards)")
 ASSUMPTIONS = ["numpy arithmetic is exact on the integer ranges used"]
-REQUIRED = {"triples": 1000, "interleaved_checked": 200, "splicing_sums_checked": 100, "valid_partitions_checked": 100, "nwin_checked": 1000, "repeat_queries_checked": 1000}
+REQUIRED = {"triples": 1000, "interleaved_checked": 200, "splicing_sums_checked": 100, "valid_partitions_checked": 100, "nwin_checked": 1000, "repeat_queries_checked": 1000, "huge_triples": 100}
 CASE_TIMEOUT = 600.0
 
 
@@ -23,7 +23,7 @@ def EXHAUSTIVE(tier):
 
 def gen_cases(seed, tier):
     nsmax, wmax = (400, 64) if tier == "thorough" else (120, 24)
-    cases = []
+    cases = [{"cls": "huge", "seed": seed * 1000 + 900 + k, "n": 60, "_w": 1.0} for k in range(2 if tier == "quick" else 20)]
     for w in range(1, wmax + 1):
         cases.append({"cls": "box", "nswin": w, "nsmax": nsmax, "_w": w * nsmax / 2000.0})
     nrand = 40000 if tier == "thorough" else 600
@@ -183,7 +183,36 @@ def run_case(case):
     from ibldsp.utils import WindowGenerator as WG
     res = Result()
     nontriv = 0
-    if case["cls"] == "box":
+    if case["cls"] == "huge":
+        # window and stride of millions of samples (hours of recording cut into a handful of windows): the lengths sit a few samples around whole numbers
+        # of strides - the arithmetic is exact in integers, there is no room for rounding.  Judged on the window list itself (no per-sample arrays).
+        rng = rng_for(case)
+        for _ in range(case["n"]):
+            w = int(rng.integers(1_000_000, 60_000_000))
+            ov = int(rng.choice([0, 2, 1024, int(rng.integers(0, w // 2))]))
+            stride = w - ov
+            k = int(rng.integers(1, 9))
+            ns = w + k * stride + int(rng.choice([-3, -2, -1, 0, 1, 2, 3, int(rng.integers(4, 50))]))
+            T = (ns, w, ov)
+            try:
+                wg = WG(ns, w, ov)
+                fl = list(wg.firstlast)
+            except Exception as e:
+                res.exception("firstlast:exception", e, f"WindowGenerator{T}.firstlast")
+                continue
+            res.count("huge_triples")
+            first = np.array([a for a, _ in fl], dtype=np.int64)
+            last = np.array([b_ for _, b_ in fl], dtype=np.int64)
+            n = len(fl)
+            ok = n > 0 and first[0] == 0 and last[-1] == ns and np.all(last[:-1] - first[:-1] == w) and 0 < last[-1] - first[-1] <= w and np.all(first[1:] == last[:-1] - ov) and np.all(last[:-1] < ns)
+            res.check(ok, "firstlast:huge", f"{T}: windows {fl[:2]}..{fl[-2:]} do not run from 0 to ns with length {w} and overlap {ov}")
+            res.check(wg.nwin == n, "nwin:huge", f"{T}: nwin announced {wg.nwin}, produced {n} (last window holds {int(last[-1] - first[-1]) if n else '?'} samples)", counter="nwin_checked")
+            ts = wg.tscale(30000.0)
+            res.check(ts.shape == (n,) and np.allclose(ts, (first + last - 1) / 2 / 30000.0, rtol=1e-12, atol=0), "tscale:huge", f"{T}: tscale has {ts.shape} entries for {n} windows / is not the window centres")
+            if n >= 2:
+                nontriv += 1
+        res.sig = f"huge-{case['seed']}"
+    elif case["cls"] == "box":
         w = case["nswin"]
         for ns in range(1, case["nsmax"] + 1):
             for ov in range(0, w):
